@@ -202,6 +202,7 @@ def run(prop, tier):
     samples = []
     for name, L in LISTENERS.items():
         exe = e4.build_program(b, name)
+        exe_zero = e4.build_program(b, name, init='zero')
         scripts, meta = [], {}
         for mlabel, args, presets, mparam in L['modes']:
             temps = L['templates'](mparam)
@@ -240,6 +241,26 @@ def run(prop, tier):
                         meta[sid] = (name, mlabel, t.label, dn, seqkind, dc)
         results = e4.run_batch(exe, scripts)
         nseq += len(scripts)
+        # the same scripts with zero- instead of pattern-initialised locals: any difference in status or
+        # effects means the behaviour depends on an uninitialised value
+        results_zero = e4.run_batch(exe_zero, scripts)
+        nseq += len(scripts)
+        for sid in results:
+            a, z = results[sid], results_zero[sid]
+            if (a[0], a[1]) != (z[0], z[1]) and not e4.classify(a[0], a[2]) and not e4.classify(z[0], z[2]):
+                n_, mlabel, tl, dn, kind, dc = meta[sid]
+                key = '%s: behaviour depends on an uninitialised value' % name
+                e = res.viol.setdefault(('C18', key), {'count': 0, 'case': sid, 'detail': '', 'tag': '', 'modes': set(), 'devs': set()})
+                e['count'] += 1
+                e['modes'].add(mlabel); e['devs'].add(dc or 'well-formed')
+                if not e['detail']:
+                    e['detail'] = 'first: mode %s, template %s, deviation %s (%s): with pattern-initialised locals %s %s, with zero-initialised locals %s %s' % (mlabel, tl, dn, kind, a[0], a[1][:120], z[0], z[1][:120])
+            elif e4.classify(z[0], z[2]) and not e4.classify(a[0], a[2]):
+                n_, mlabel, tl, dn, kind, dc = meta[sid]
+                key = '%s: %s (only with zero-initialised locals: depends on an uninitialised value)' % (name, e4.classify(z[0], z[2]))
+                e = res.viol.setdefault(('C18', key), {'count': 0, 'case': sid, 'detail': 'first: mode %s, template %s, deviation %s (%s): %s' % (mlabel, tl, dn, kind, z[2][:300] or z[0]), 'tag': '', 'modes': set(), 'devs': set()})
+                e['count'] += 1
+                e['modes'].add(mlabel); e['devs'].add(dc or 'well-formed')
         # baseline effects of the well-formed datagram per (mode, template)
         base = {}
         for sid, (n_, mlabel, tl, dn, kind, dc) in meta.items():
@@ -301,7 +322,7 @@ def run(prop, tier):
     core.finish('C18', tier, t0, res,
                 rule='for each of the 6 listeners x each of its modes x each well-formed template: every datagram within %d deviation(s) of the template (truncation at every structural boundary +-1; every length-like field in {0,1,2,3,exact-1,exact+1,exact+4,max-1,max}; discriminators valid/other/invalid; payload fill 00/FF/\'A\'; oversize to 1500/1600), delivered alone and followed by a well-formed datagram, to the real main() under ASan+UBSan with pattern-initialised locals; one forked child per sequence, 2 s watchdog; oracle: no sanitizer report, no signal, no hang, receive loop still polling at the end of the script, and the trailing well-formed datagram has its effect' % kmax,
                 bounds={'deviations': kmax, 'sequences': nseq, 'listeners': list(LISTENERS), 'sequences_masked_by_a_failure_on_well_formed_traffic': masked},
-                assumptions=['leak detection off (queued samples awaiting presentation are not leaks)', 'a periodic timer fires at most twice between two datagrams (horizon)',
+                assumptions=['every script runs twice, with pattern- and with zero-initialised locals, and the two outcomes must agree', 'leak detection off (queued samples awaiting presentation are not leaks)', 'a periodic timer fires at most twice between two datagrams (horizon)',
                              'FD mode of the CAN listener is entered by setting its mode variable',
                              'the deviation ball around well-formed traffic, not all 2^12000 datagrams'],
                 recipe={'engine': 'c18'}, samples=samples, extra_cov={'planted_bug_selftest': 'toy listener trusting a length byte: reported as ' + planted})
